@@ -332,23 +332,25 @@ def obligations(tier: str) -> List[dict]:
         add('h_text_fixed_point', '(G) text fixed point', 400, ['accepted'],
             maxlen=3)
     else:
+        OPS2 = [(0, 0), (0, 1), (1, 0), (1, 1), (1, 2)]
         for ii in range(len(INDENTS)):
-            for ops in [(0, 0), (0, 1), (1, 0), (1, 1), (1, 2)]:
-                for r0 in range(len(ROLES)):
-                    add('h_format_parse', '(F) format/parse', 3000, n=3,
-                        indent=ii, meta=ii % 3, i0_op=ops[0], i1_op=ops[1],
-                        i0_r=r0)
-        add('h_metadata', '(M) metadata', 3000, vlen=3, second=False)
-        add('h_multikey_line', '(M) multi-key line', 3000, ['multi-key'],
+            add('h_format_parse', '(F) format/parse', 1800,
+                ['compact-multiline'] if ii == 1 else [], n=2, indent=ii,
+                meta=ii % 3)
+        for ii in (0, 1, 4):
+            for ops in OPS2:
+                add('h_format_parse', '(F) format/parse', 1800, n=3,
+                    indent=ii, meta=ii % 3, empty=0, i0_op=ops[0],
+                    i1_op=ops[1])
+        add('h_metadata', '(M) metadata', 1800, ['empty-value'], vlen=6,
+            second=False)
+        add('h_metadata', '(M) metadata', 1800, vlen=4, second=True)
+        add('h_multikey_line', '(M) multi-key line', 1800, ['multi-key'],
             vlen=2)
         add('h_multikey_fixed_point', '(M) multi-key fixed point', 600,
             ['multi-key'])
-        add('h_metadata', '(M) metadata', 3000, vlen=2, second=True)
-        for ki in range(len(KEYS)):
-            add('h_metadata', '(M) metadata', 3000, vlen=4, second=False,
-                ki=ki)
         for ml in (2, 3, 4):
-            add('h_text_fixed_point', '(G) text fixed point', 3000,
+            add('h_text_fixed_point', '(G) text fixed point', 1800,
                 ['accepted'], maxlen=ml)
     return obs
 
